@@ -51,9 +51,23 @@ class Ctx:
         self.rules_text[rule] = text
         self.floors[rule] = floor
 
-    def fn(self, rel: str, qual: str) -> ast.FunctionDef:
+    def fn(self, rel: str, qual: str, inline: Any = False) -> ast.FunctionDef:
+        """ the anchored function; with `inline` (True or a set of helper names) statement-level calls of private
+            helpers of the same module / class are replaced by the helpers' bodies (asa.inline), so that moving
+            statements of the anchor into a private helper does not hide them from the rule """
         self.functions.add(f"{rel}::{qual}")
-        return self.repo.func(rel, qual)
+        func = self.repo.func(rel, qual)
+        if not inline:
+            return func
+        key = (rel, qual, True if inline is True else tuple(sorted(inline)))
+        cache = self.__dict__.setdefault("_inline_cache", {})
+        if key not in cache:
+            from .inline import inline_function
+            new, names = inline_function(self.repo, rel, qual, func, only=None if inline is True else set(inline))
+            for name in names:
+                self.functions.add(f"{rel}::{name}")
+            cache[key] = new
+        return cache[key]
 
     def ob(self, rule: str, rel: str, node: Any, function: str, thing: str, ok: Optional[bool],
            what: str, detail: str = "", form: str = "", vacuous: bool = False) -> bool:
